@@ -172,6 +172,8 @@ def function(ip: Interp, fn: PyConst, args, kwargs, n):
         (x,) = args
         if z3.is_expr(x) and z3.is_array(x):
             return x
+        if isinstance(x, PyTuple) and not x.items:
+            return z3.K(z3.StringSort(), z3.BoolVal(False))
         if x is None:
             ip.oos('set(None)', n)
         ip.oos('set() of a sequence', n)
@@ -207,7 +209,7 @@ def function(ip: Interp, fn: PyConst, args, kwargs, n):
         if isinstance(obj, PRec):
             return attr in obj.f or ip.find_method(obj.cls, attr)[0] is not None
         if isinstance(obj, Opaque):
-            return ip.w.uf(f'has_{attr}', z3.IntSort(), z3.BoolSort())(obj.ident)
+            return ip.w.uf(f'hasattr_{attr}', z3.IntSort(), z3.BoolSort())(obj.ident)
         if S.is_val(obj):
             return ip.w.uf(f'hasv_{attr}', Val, z3.BoolSort())(obj)
         ip.oos('hasattr on this value', n)
